@@ -31,6 +31,7 @@ import (
 	"github.com/fatedier/frp/pkg/proto/udp"
 	"github.com/fatedier/frp/pkg/util/limit"
 	netpkg "github.com/fatedier/frp/pkg/util/net"
+	"github.com/fatedier/frp/pkg/util/verifhook"
 	"github.com/fatedier/frp/server/metrics"
 )
 
@@ -95,6 +96,7 @@ func (pxy *UDPProxy) Run() (remoteAddr string, err error) {
 		return
 	}
 	udpConn, errRet := net.ListenUDP("udp", addr)
+	verifhook.At("udp.listen", "pxy", verifhook.ID(pxy.BaseProxy), "name", pxy.name, "port", pxy.realBindPort, "err", errRet)
 	if errRet != nil {
 		err = errRet
 		xl.Warnf("listen udp port error: %v", err)
@@ -261,6 +263,7 @@ func (pxy *UDPProxy) Close() {
 		close(pxy.checkCloseCh)
 		close(pxy.readCh)
 		close(pxy.sendCh)
+		verifhook.At("udp.close.unbound", "pxy", verifhook.ID(pxy.BaseProxy), "name", pxy.name, "port", pxy.realBindPort)
 	}
 	pxy.rc.UDPPortManager.Release(pxy.realBindPort)
 }
